@@ -57,6 +57,8 @@ type Call struct {
 	NS   string
 	Name string
 	Sub  string // "status" or ""
+	// GenName: metadata.generateName of a created object whose name the server chooses
+	GenName string
 	// Obj: deep copy of the object as passed by the caller (writes) or as returned (get)
 	Obj client.Object
 	// Items: deep copies of what a list returned
@@ -70,7 +72,15 @@ type Call struct {
 }
 
 func (c *Call) Key() string {
-	s := c.Verb + " " + c.Kind + " " + c.NS + "/" + c.Name
+	name := c.Name
+	if c.Verb == "create" && c.GenName != "" {
+		// stable before and after the call: the generated name is not part of the key
+		name = c.GenName + "*"
+		if p, ok := c.Obj.(*corev1.Pod); ok {
+			name += "@" + TargetNode(p)
+		}
+	}
+	s := c.Verb + " " + c.Kind + " " + c.NS + "/" + name
 	if c.Sub != "" {
 		s += " /" + c.Sub
 	}
@@ -295,6 +305,9 @@ func now() metav1.Time { return metav1.NewTime(time.Now().Truncate(time.Second))
 
 func (a *API) Create(ctx context.Context, obj client.Object, opts ...client.CreateOption) error {
 	c := &Call{Verb: "create", Kind: kindOf(obj), NS: obj.GetNamespace(), Name: obj.GetName(), Obj: cp(obj)}
+	if obj.GetName() == "" {
+		c.GenName = obj.GetGenerateName()
+	}
 	f := a.record(c)
 	if a.Hook != nil && c.Kind == "Pod" && f == FaultNone {
 		if err := a.Hook(c); err != nil {
